@@ -184,6 +184,59 @@ class GramEval:
         return outs
 
 
+def key_presence(c, mapname):
+    """what a path condition says about a key being in the map `mapname`: True (present), False (absent), None.
+    Recognised: `map.get(k)` matched against Some/None (match, if let, `?`, is_some/is_none) and contains_key/contains"""
+    desc, truth = c[0], bool(c[1])
+    neg = desc.lstrip().startswith("!")
+    if f"{mapname}.contains_key" in desc or f"{mapname}.contains(" in desc:
+        return truth != neg
+    if f"{mapname}.get" in desc:
+        if "matches Some" in desc or ".is_some()" in desc:
+            return truth != neg
+        if "matches None" in desc or ".is_none()" in desc:
+            return not (truth != neg)
+        m = __import__("re").search(r"matches _ \[not ([^\]]*)\]", desc)
+        if m and truth:
+            if "Some" in m.group(1) and "None" not in m.group(1):
+                return False
+            if "None" in m.group(1) and "Some" not in m.group(1):
+                return True
+    return None
+
+
+def action_and_helper_asts(G, p, depth=3):
+    """the syntax tree of a production's action together with those of the helper functions it (transitively) calls"""
+    helpers = {}
+    for h in G.g.get("helpers") or []:
+        helpers.setdefault(h["name"], []).append(h)
+    out, seen = [], set()
+
+    def add(ast, d):
+        out.append(ast)
+        if d <= 0:
+            return
+
+        def walk(n):
+            if isinstance(n, dict):
+                name = None
+                if n.get("k") == "mcall":
+                    name = n.get("m")
+                elif n.get("k") == "call" and isinstance(n.get("f"), dict) and n["f"].get("k") == "path":
+                    name = n["f"]["segs"][-1]
+                if name and name in helpers and name not in seen and len(helpers[name]) == 1:
+                    seen.add(name)
+                    add(helpers[name][0]["body"], d - 1)
+                for v in n.values():
+                    walk(v)
+            elif isinstance(n, list):
+                for v in n:
+                    walk(v)
+        walk(ast)
+    add(G.main_user_action(p["action"]).get("ast"), depth)
+    return out
+
+
 def spelling_table(E, nt, depth=0):
     """[(terminal spelling, emitted text or None, production)] of a keyword table: a nonterminal whose alternatives are
     single terminals with a text value, possibly reached through wrapper alternatives that consist of one nonterminal
